@@ -635,10 +635,13 @@ func (w *world) buildRequest(rs *reqState) gsmsg.GraphSyncRequest {
 // this phase have left the responder.
 func (w *world) settle(rs *reqState, from int) bool {
 	deadline := time.Now().Add(20 * time.Second)
+	wantTerminal := false
 	for {
 		st := w.rm.PeerState(w.p)
 		s, ok := st.RequestStates[rs.gsid]
 		if !ok || s == graphsync.Paused || s == graphsync.CompletingSend {
+			// gone or completing: the phase ends with a terminal status; paused: with RequestPaused
+			wantTerminal = !ok || s == graphsync.CompletingSend
 			break
 		}
 		if time.Now().After(deadline) {
@@ -650,11 +653,16 @@ func (w *world) settle(rs *reqState, from int) bool {
 		w.fake.flush()
 		return true
 	}
-	// real message queue: wait until a non-partial status for this request went over the wire
+	// real message queue: wait until the status that ends this phase went over the wire (a phase can
+	// carry two non-partial codes, e.g. paused by the hook and then failed by a malformed extension)
 	for {
 		for _, rm := range w.rec.since(from) {
 			for _, resp := range rm.msg.Responses() {
-				if resp.RequestID() == rs.gsid && resp.Status() != graphsync.PartialResponse {
+				if resp.RequestID() != rs.gsid {
+					continue
+				}
+				st := resp.Status()
+				if (wantTerminal && st.IsTerminal()) || (!wantTerminal && st == graphsync.RequestPaused) {
 					// everything queued before it has been sent as well (one queue, in order)
 					return true
 				}
